@@ -24,7 +24,10 @@ from .common import Check, Graph, impl_call, skey
 
 INVS = ["Attributed", "OnlyGranted", "Newest", "TempOnce", "SeedReqOK", "SeedRespOK", "ProxyStable"]
 CONSTS = ("NR = %(NR)d MaxSeed = %(MaxSeed)d MaxTemp = %(MaxTemp)d Grants = {%(Grants)s} PO = {%(PO)s} Wants = {%(Wants)s} "
-          "Depth = %(Depth)d")
+          "TN = {%(TN)s} Depth = %(Depth)d")
+T1 = '"UpTemp"'
+T2 = '"UpTemp", "CapB"'
+
 P1 = '"ProxyP"'
 P2 = '"ProxyP", "ProxyQ"'
 
@@ -63,7 +66,10 @@ class World:
         self.sessions = {}
         for r in range(1, nr + 1):
             s = 1 if r <= 2 else 2
-            addr = ("127.0.0.%d" % r, 13000 + r)
+            # region 3 (session 2) is in the same simulator as region 1 (session 1): two avatars in one sim have
+            # separate ProxiedRegions with the same circuit address and different seeds
+            sim = 1 if r == 3 else r
+            addr = ("127.0.0.%d" % sim, 13000 + sim)
             if s not in self.sessions:
                 self.sessions[s] = self.sm.create_session({
                     "session_id": UUID(int=1000 + s), "secure_session_id": UUID(int=2000 + s),
@@ -123,7 +129,7 @@ class World:
         from mitmproxy.test import tflow, tutils
         n = act["n"]
         if n == "RegisterTemp":
-            return impl_call(self.regions[act["r"]].register_cap, "UpTemp", self.concrete(act["u"]), CapType.TEMPORARY)
+            return impl_call(self.regions[act["r"]].register_cap, act["name"], self.concrete(act["u"]), CapType.TEMPORARY)
         if n == "RegisterProxy":
             return impl_call(self.regions[act["r"]].register_proxy_cap, act["name"])
         if n == "Resolve":
@@ -213,16 +219,15 @@ class World:
             if gt != t:
                 bad.append(("byname", "type", [r, name], t, gt))
         # destructive, therefore last: k live one-shot registrations resolve exactly k times
-        for r, u, k, after in obs["temps"]:
+        for r, u, k, after, tup in obs["temps"]:
             url = self.concrete(u)
-            s = 1 if r <= 2 else 2
             seq = []
             for i in range(k + 1):
                 n += 1
                 seq.append(self.resolve(url + (EXT if i % 2 else ""))[0])
             # k answers from the one-shot cap, then whatever is left (nothing, or the granted cap the URL extends)
-            if seq[:k] != [["UpTemp", "T", r, s]] * k or seq[k] not in after:
-                bad.append(("temp-once", "count", u, [["UpTemp", "T", r, s]] * k + [after], seq))
+            if seq[:k] != [tup] * k or seq[k] not in after:
+                bad.append(("temp-once", "count", u, [tup] * k + [after], seq))
         # destructive probe: a further registration of the proxy-only cap yields the URL of the first one, in every
         # state (a hidden change made by a seed round trip shows here, whatever path the BFS tree took), and lookup
         # by name still yields that URL afterwards
@@ -365,7 +370,7 @@ def _algo(chk: Check, consts, label):
     (the pinned tree's resolve_cap loop / register_proxy_cap indices) TLC produces the 5- and 3-state
     counterexamples of the two genuine defects, with DedupeAdd = TRUE (update_caps skipping a pair the name
     already has) the 7-state one of the grant history a, c, a; the real code is never judged against this layer."""
-    cfg = ("SPECIFICATION ASpec\nCONSTANTS %s FirstMatch = FALSE SwappedIndex = FALSE DedupeAdd = FALSE IterRemove = FALSE\nCONSTRAINT Bound\n" % (CONSTS % consts)
+    cfg = ("SPECIFICATION ASpec\nCONSTANTS %s FirstMatch = FALSE SwappedIndex = FALSE DedupeAdd = FALSE IterRemove = FALSE ReAddOnConsume = FALSE\nCONSTRAINT Bound\n" % (CONSTS % consts)
            + "".join("INVARIANT %s\n" % i for i in ("AlgoResolves", "AlgoTemps", "AlgoByName", "AlgoProxyStable", "AlgoUpstream")))
     common.model_check(chk, "Caps_Algo", cfg, "Caps_Algo " + label)
 
@@ -378,29 +383,34 @@ def run(chk: Check):
         "a simulator grants only caps the (rewritten) seed request asked for",
         "a granted URL belongs to one cap name (asset-server names may share one) and, the shared asset URL apart, to one region; "
         "prefix-related URLs therefore live in one region",
-        "seed URLs are distinct per region and fixed; requested cap names are listed once",
+        "seed URLs are distinct per region and fixed; requested cap names are listed once; regions of one session have "
+        "distinct circuit addresses, regions of different sessions may share one (two avatars in one simulator)",
         "plain asset-server caps (GetMesh, ViewerAsset) may resolve with or without region/session (left open), never to a wrong one",
         "URLs the proxy mints itself (wrapper / proxy-only) are on its own host names and therefore never prefix-related to "
         "simulator URLs; one-shot URLs registered through register_cap are (above and below granted URLs)",
     ]
     if chk.tier == "quick":
-        _b1(chk, dict(NR=2, MaxSeed=2, MaxTemp=2, Grants="1,2,3,4,5,6,7,9", PO=P1, Wants="1,2", Depth=5), "2r-d5", 6000)
+        _b1(chk, dict(NR=2, MaxSeed=2, MaxTemp=2, Grants="1,2,3,4,5,6,7,9", PO=P1, Wants="1,2", TN=T1, Depth=5), "2r-d5", 6000)
         # two sessions, asset URL shared across sessions (no one-shot caps)
-        _b1(chk, dict(NR=3, MaxSeed=2, MaxTemp=0, Grants="1,5,6", PO=P1, Wants="1,2", Depth=5), "3r-d5-small", 2000)
+        _b1(chk, dict(NR=3, MaxSeed=2, MaxTemp=0, Grants="1,5,6", PO=P1, Wants="1,2", TN=T1, Depth=5), "3r-d5-small", 2000)
         # long grant histories of ONE name in one region: re-grants of an earlier URL (a c a, a c a c, a ax a ..)
-        _b1(chk, dict(NR=1, MaxSeed=4, MaxTemp=0, Grants="1,2,8", PO=P1, Wants="1,2", Depth=9), "1r-regrant-d9", 1500)
+        _b1(chk, dict(NR=1, MaxSeed=4, MaxTemp=0, Grants="1,2,8", PO=P1, Wants="1,2", TN=T1, Depth=9), "1r-regrant-d9", 1500)
         # two proxy-only caps, seed requests naming them in every order / adjacency
-        _b1(chk, dict(NR=1, MaxSeed=2, MaxTemp=0, Grants="1,5", PO=P2, Wants="1,2,3,4,5,6,7", Depth=7), "1r-proxy2-d7", 1000)
+        _b1(chk, dict(NR=1, MaxSeed=2, MaxTemp=0, Grants="1,5", PO=P2, Wants="1,2,3,4,5,6,7", TN=T1, Depth=7), "1r-proxy2-d7", 1000)
         # one-shot URLs above / below granted URLs, registered before and after the grant, consumed, re-registered
-        _b1(chk, dict(NR=1, MaxSeed=2, MaxTemp=2, Grants="1,3,9", PO="", Wants="1", Depth=8), "1r-temps-d8", 1000)
-        _algo(chk, dict(NR=1, MaxSeed=2, MaxTemp=1, Grants="1,3,9", PO=P2, Wants="1,3,5", Depth=6), "1r-d6-small")
+        _b1(chk, dict(NR=1, MaxSeed=2, MaxTemp=2, Grants="1,3,9", PO="", Wants="1", TN=T1, Depth=8), "1r-temps-d8", 1000)
+        # several live entries under ONE name (ordinary grant + up to three one-shot caps), used up in any order
+        _b1(chk, dict(NR=1, MaxSeed=1, MaxTemp=3, Grants="4", PO="", Wants="1", TN=T2, Depth=8), "1r-temps3-d8", 1500)
+        _algo(chk, dict(NR=1, MaxSeed=2, MaxTemp=1, Grants="1,3,9", PO=P2, Wants="1,3,5", TN=T1, Depth=6), "1r-d6-small")
     else:
-        _b1(chk, dict(NR=3, MaxSeed=2, MaxTemp=1, Grants="1,2,3,4,5,6,7,9", PO=P1, Wants="1,2", Depth=5), "3r-d5", 20000)
-        _b1(chk, dict(NR=2, MaxSeed=3, MaxTemp=2, Grants="1,2,3,4,5,6,7,8,9", PO=P1, Wants="1,2", Depth=6), "2r-d6", 30000)
-        _b1(chk, dict(NR=1, MaxSeed=5, MaxTemp=0, Grants="1,2,3,8", PO=P1, Wants="1,2", Depth=11), "1r-regrant-d11", 10000)
-        _b1(chk, dict(NR=2, MaxSeed=2, MaxTemp=0, Grants="1,5", PO=P2, Wants="1,2,3,4,5,6,7", Depth=7), "2r-proxy2-d7", 10000)
-        _b1(chk, dict(NR=1, MaxSeed=3, MaxTemp=2, Grants="1,2,3,9", PO=P1, Wants="1,2", Depth=9), "1r-temps-d9", 10000)
-        _algo(chk, dict(NR=2, MaxSeed=2, MaxTemp=1, Grants="1,2,3,4,5,6,7,8,9", PO=P1, Wants="1,2", Depth=5), "2r-d5")
-        _algo(chk, dict(NR=1, MaxSeed=4, MaxTemp=0, Grants="1,2,8", PO=P1, Wants="1,2", Depth=9), "1r-regrant-d9")
-        _algo(chk, dict(NR=1, MaxSeed=2, MaxTemp=1, Grants="1,3,9", PO=P2, Wants="1,2,3,4,5,6,7", Depth=7), "1r-proxy2-d7")
+        _b1(chk, dict(NR=3, MaxSeed=2, MaxTemp=1, Grants="1,2,3,4,5,6,7,9", PO=P1, Wants="1,2", TN=T1, Depth=5), "3r-d5", 20000)
+        _b1(chk, dict(NR=2, MaxSeed=3, MaxTemp=2, Grants="1,2,3,4,5,6,7,8,9", PO=P1, Wants="1,2", TN=T1, Depth=6), "2r-d6", 30000)
+        _b1(chk, dict(NR=1, MaxSeed=5, MaxTemp=0, Grants="1,2,3,8", PO=P1, Wants="1,2", TN=T1, Depth=11), "1r-regrant-d11", 10000)
+        _b1(chk, dict(NR=2, MaxSeed=2, MaxTemp=0, Grants="1,5", PO=P2, Wants="1,2,3,4,5,6,7", TN=T1, Depth=7), "2r-proxy2-d7", 10000)
+        _b1(chk, dict(NR=1, MaxSeed=3, MaxTemp=2, Grants="1,2,3,9", PO=P1, Wants="1,2", TN=T1, Depth=9), "1r-temps-d9", 10000)
+        _b1(chk, dict(NR=1, MaxSeed=2, MaxTemp=3, Grants="4,9", PO="", Wants="1", TN=T2, Depth=9), "1r-temps3-d9", 10000)
+        _algo(chk, dict(NR=1, MaxSeed=1, MaxTemp=3, Grants="4", PO="", Wants="1", TN=T2, Depth=8), "1r-temps3-d8")
+        _algo(chk, dict(NR=2, MaxSeed=2, MaxTemp=1, Grants="1,2,3,4,5,6,7,8,9", PO=P1, Wants="1,2", TN=T1, Depth=5), "2r-d5")
+        _algo(chk, dict(NR=1, MaxSeed=4, MaxTemp=0, Grants="1,2,8", PO=P1, Wants="1,2", TN=T1, Depth=9), "1r-regrant-d9")
+        _algo(chk, dict(NR=1, MaxSeed=2, MaxTemp=1, Grants="1,3,9", PO=P2, Wants="1,2,3,4,5,6,7", TN=T1, Depth=7), "1r-proxy2-d7")
     chk.cov["exhaustive"] = True
